@@ -5,6 +5,7 @@ import (
 	"encoding/json"
 	"fmt"
 	"math/rand"
+	"sigs.k8s.io/controller-runtime/pkg/handler"
 
 	kruiseappsv1alpha1 "github.com/openkruise/kruise-api/apps/v1alpha1"
 	corev1 "k8s.io/api/core/v1"
@@ -55,14 +56,15 @@ type BRCloneSet struct {
 }
 
 type BRInput struct {
-	Plan       []IOS      `json:"plan"`
-	Partition  *int       `json:"partition,omitempty"`
-	FT         *IOS       `json:"ft,omitempty"`
-	Deleting   bool       `json:"deleting"`
-	Finalizer  bool       `json:"finalizer"`
-	Generation int        `json:"generation"`
-	Status     BRStatus   `json:"status"`
-	W          BRCloneSet `json:"w"`
+	Plan        []IOS      `json:"plan"`
+	Partition   *int       `json:"partition,omitempty"`
+	FT          *IOS       `json:"ft,omitempty"`
+	Deleting    bool       `json:"deleting"`
+	Finalizer   bool       `json:"finalizer"`
+	Generation  int        `json:"generation"`
+	Status      BRStatus   `json:"status"`
+	W           BRCloneSet `json:"w"`
+	UnknownKind bool       `json:"unknown_kind,omitempty"` // workloadRef names a kind the controllers do not support (the CRD takes any string)
 }
 
 type BRObs struct {
@@ -242,6 +244,7 @@ func (brexecEngine) Gen(r *rand.Rand, idx int, tier string) any {
 		st.Updated, st.UpdatedReady = w.StUpdated, w.StUpdatedReady
 		w.Partition = mk(Int(n - planned))
 	}
+	in.UnknownKind = idx%25 == 7
 	return in
 }
 
@@ -268,6 +271,9 @@ func (brexecEngine) Run(inAny any) (res any) {
 	curHash := util.HashReleasePlanBatches(&plan)
 	br := &v1beta1.BatchRelease{ObjectMeta: metav1.ObjectMeta{Namespace: "ns", Name: "br", UID: brUID, Generation: int64(in.Generation)},
 		Spec: v1beta1.BatchReleaseSpec{WorkloadRef: v1beta1.ObjectRef{APIVersion: "apps.kruise.io/v1alpha1", Kind: "CloneSet", Name: "wl"}, ReleasePlan: plan}}
+	if in.UnknownKind {
+		br.Spec.WorkloadRef = v1beta1.ObjectRef{APIVersion: "example.io/v1", Kind: "Foo", Name: "wl"}
+	}
 	if in.Finalizer {
 		br.Finalizers = []string{batchrelease.ReleaseFinalizer}
 	}
@@ -323,6 +329,12 @@ func (brexecEngine) Run(inAny any) (res any) {
 			}
 		}()
 		var err error
+		if in.UnknownKind {
+			// the first reconcile of a new workload type only registers the watch and waits for the informer
+			batchrelease.VerifSetRuntimeController(&scriptedController{ok: true}, &handler.EnqueueRequestForObject{})
+			defer batchrelease.VerifSetRuntimeController(nil, nil)
+			_, _ = rec.Reconcile(context.TODO(), ctrl.Request{NamespacedName: types.NamespacedName{Namespace: "ns", Name: "br"}})
+		}
 		result, err = rec.Reconcile(context.TODO(), ctrl.Request{NamespacedName: types.NamespacedName{Namespace: "ns", Name: "br"}})
 		if err != nil {
 			obs.Err = err.Error()
@@ -411,6 +423,6 @@ func (brexecEngine) Coq(inAny any, obsAny any) string {
 	if obs.View != nil {
 		view = emit.Some("(" + emit.Bool(obs.View.Consistent) + ", " + emit.Bool(obs.View.StateReady) + ", " + emit.Z(int64(obs.View.Batch)) + ", " + emit.Bool(obs.View.Completed) + ")")
 	}
-	o := emit.App("Build_br_obs", emit.Bool(obs.Panic != ""), emit.Bool(obs.Err != ""), emit.Bool(obs.Gone), coqBRStatus(obs.Status), coqBRCloneSet(obs.W), emit.Bool(obs.Finalizer), emit.Bool(obs.Requeue), view)
+	o := emit.App("Build_br_obs", emit.Bool(obs.Panic != ""), emit.Bool(obs.Err != ""), emit.Bool(obs.Gone), coqBRStatus(obs.Status), coqBRCloneSet(obs.W), emit.Bool(obs.Finalizer), emit.Bool(obs.Requeue), view, emit.Bool(in.UnknownKind))
 	return "(" + spec + ", " + coqBRStatus(in.Status) + ", " + coqBRCloneSet(in.W) + ", " + o + ")"
 }
